@@ -294,6 +294,42 @@ static void caseNeigh(Rng& r, Ctx& c)
     }
   }
 
+  // --- the data are edited IN PLACE (coordinates mirrored through the centre of their bounding box) and the same two objects
+  //     are attached again to the same Db objects: each must answer like a fresh object of its kind attached to the edited Db
+  //     (the search tree of the accelerated path must follow the data, whatever object carries it)
+  if (c.icase % 2 == 0)
+  {
+    int nsA = dbA->getSampleNumber();
+    std::vector<std::vector<double>> x0(ndim, std::vector<double>(nsA));
+    for (int d = 0; d < ndim; d++)
+    {
+      double lo = INFINITY, hi = -INFINITY;
+      for (int i = 0; i < nsA; i++) { x0[d][i] = dbA->getCoordinate(i, d); lo = std::min(lo, x0[d][i]); hi = std::max(hi, x0[d][i]); }
+      for (int i = 0; i < nsA; i++) dbA->setCoordinate(i, d, lo + hi - x0[d][i]);
+    }
+    auto fS = mk(false), fB = mk(true);
+    if (nS->attach(dbA.get(), dbT.get()) == 0 && nB->attach(dbA.get(), dbT.get()) == 0 && fS->attach(dbA.get(), dbT.get()) == 0 &&
+        fB->attach(dbA.get(), dbT.get()) == 0)
+    {
+      int ndone = 0;
+      for (int t = 0; t < m && ndone < 6; t++)
+      {
+        if (!T.active(t)) continue;
+        ndone++;
+        VectorInt r1, r2, r3, r4;
+        nS->select(t, r1); fS->select(t, r2); nB->select(t, r3); fB->select(t, r4);
+        std::vector<int> a1(r1.begin(), r1.end()), a2(r2.begin(), r2.end()), a3(r3.begin(), r3.end()), a4(r4.begin(), r4.end());
+        std::sort(a1.begin(), a1.end()); std::sort(a2.begin(), a2.end()); std::sort(a3.begin(), a3.end()); std::sort(a4.begin(), a4.end());
+        c.check("nb-reattach-scan", "C04:neigh-ball:reattach-after-in-place-edit:scan", a1 == a2, a1 == a2 ? 0 : 1, 0,
+                what + fmt(" target=%d reused=%s fresh=%s", t, jvec(a1, 20).c_str(), jvec(a2, 20).c_str()));
+        c.check("nb-reattach-ball", "C04:neigh-ball:reattach-after-in-place-edit:ball", a3 == a4, a3 == a4 ? 0 : 1, 0,
+                what + fmt(" target=%d reused=%s fresh=%s", t, jvec(a3, 20).c_str(), jvec(a4, 20).c_str()));
+      }
+    }
+    for (int d = 0; d < ndim; d++)
+      for (int i = 0; i < nsA; i++) dbA->setCoordinate(i, d, x0[d][i]);
+  }
+
   // --- the same two neighbourhoods through kriging(), restricted (by a selection on the target Db) to the targets
   //     that satisfy the precondition: identical results expected
   int npre = 0;
